@@ -19,14 +19,19 @@ func TestExAtDeadlineDemo(t *testing.T) {
 	ts.ProcessCommand("set", "k", "v", "exat", fmt.Sprint(T))
 	out := ts.ProcessCommand("pexpiretime", "k")
 	got, _ := out.toNative().(int64)
-	if got < T*1000-1 || got > T*1000 {
+	if got != T*1000 {
 		t.Errorf("SET k v EXAT %d: PEXPIRETIME is %d, want %d", T, got, T*1000)
+	}
+	// the deadline is reported as it was given (EXPIRETIME is in whole seconds)
+	out = ts.ProcessCommand("expiretime", "k")
+	if sec, _ := out.toNative().(int64); sec != T {
+		t.Errorf("SET k v EXAT %d: EXPIRETIME is %d, want %d", T, sec, T)
 	}
 	ts.ProcessCommand("set", "g", "v")
 	ts.ProcessCommand("getex", "g", "exat", fmt.Sprint(T))
 	out = ts.ProcessCommand("pexpiretime", "g")
 	got, _ = out.toNative().(int64)
-	if got < T*1000-1 || got > T*1000 {
+	if got != T*1000 {
 		t.Errorf("GETEX g EXAT %d: PEXPIRETIME is %d, want %d", T, got, T*1000)
 	}
 	out = ts.ProcessCommand("set", "o", "v", "ex", "9223372036854775807")
